@@ -80,6 +80,15 @@ int main()
     while (!line.empty() && (line.back() == '\n' || line.back() == '\r')) line.pop_back();
     const auto t(verif::split(line));
     if (t.size() == 1 && t[0] == "stats") { std::cout << c12m::stats_line() << "\n"; std::cout.flush(); continue; }
+    if (t.size() == 1 && t[0] == "symcats")
+    {
+      // opcode:category of every symbol of the harness's symbol set (for the opcode substitutions)
+      std::string o("symcats");
+      for (auto sy : c11::M().syms) o += ' ' + std::to_string(sy->opcode()) + ':' + std::to_string(sy->category());
+      std::cout << o << "\n";
+      std::cout.flush();
+      continue;
+    }
     if (t.size() < 4 || t[0] != "ld") { std::cout << "bad-op\n"; std::cout.flush(); continue; }
     const std::string &type(t[1]);
     const std::uint64_t tseed(std::stoull(t[2]));
@@ -146,7 +155,9 @@ int main()
       std::cout << c12big::load_lambda(unsigned(tseed), bytes) << "\n";
     else if (type == "cache")
       std::cout << c12big::load_cache(unsigned(tseed), bytes) << "\n";
-    else if (!c12big::dispatch(type, r, bytes))
+    else if (type == "cachet")
+      std::cout << c12big::load_cache_target(r, bytes) << "\n";
+    else if (!c12big::dispatch(type, tseed, r, bytes))
       std::cout << "bad-op\n";
     std::cout.flush();
   }
